@@ -49,7 +49,26 @@ AUTO = {
 
 
 def missing_functions(frontend_error):
-    return sorted(set(re.findall(r'cannot find function `(\w+)`', frontend_error or '')))
+    """names the front end could not resolve: functions, and constants (`cannot find value `NAME``)"""
+    fe = frontend_error or ''
+    return sorted(set(re.findall(r'cannot find function `(\w+)`', fe)) | set(re.findall(r'cannot find value `([A-Z][A-Z0-9_]*)`', fe)))
+
+
+def _find_const(name, sources):
+    hits = []
+    for src, idx in sources.items():
+        for k, it in idx.items():
+            if isinstance(it, list):
+                continue
+            if getattr(it, 'kind', None) == 'const' and (k == 'const ' + name or k.endswith('::const ' + name)):
+                hits.append((src, k))
+    return hits[0] if len(hits) == 1 else None
+
+
+def _const_entry(unit, src, key):
+    n = len(unit.entries)
+    unit.item(src, key)
+    return unit.entries.pop(n)
 
 
 def extend(unit, names, sources=None):
@@ -60,6 +79,14 @@ def extend(unit, names, sources=None):
         if n not in AUTO:
             if sources is None:
                 return None
+            if re.match(r'^[A-Z][A-Z0-9_]*$', n):
+                # a constant the changed code introduces or newly uses: emitted as it is (a constant has no contract)
+                hit = _find_const(n, sources)
+                if hit is None:
+                    return None
+                if not any(getattr(e, 'key', None) == hit[1] for e in unit.entries):
+                    unit.entries.insert(0, _const_entry(unit, hit[0], hit[1]))
+                continue
             import inline
             import vgen
             it = inline.find_helper(n, sources)
